@@ -253,6 +253,11 @@ pub fn worker_main(args: &[String]) {
             });
         }
         index += stride;
+        // triage mode (tools/run_mutant.sh): one minimised violation per worker is enough to
+        // know that a seeded change is caught; never set by a registered check
+        if !sum.violations.is_empty() && std::env::var("VERIF_STOP_AT_FIRST").is_ok() {
+            break;
+        }
         // A run that ends in a deadlock leaks its coroutines (shuttle cannot unwind them), so a
         // long-lived worker grows. Hand over to a fresh process before that becomes a problem.
         if sum.runs % 128 == 0 && index < end && rss_mb() > rss_limit_mb() {
